@@ -145,7 +145,7 @@ PATHS = [p for n in range(0, 4) for p in itertools.product('ab', repeat=n)]
 
 @bounded('E3', targets=['kopf._cogs.structs.diffs.diff', 'kopf._cogs.structs.diffs.reduce',
                         'kopf._core.intents.handlers.ResourceHandler.adjust_cause'],
-         props=['C04', 'C15', 'C03'],
+         props=['C04', 'C15', 'C03', 'C14', 'C17', 'C18'],
          clauses=['apply_diff_yields_new', 'empty_iff_equivalent', 'items_exact', 'reduce_is_diff_of_resolved',
                   'reduce_applies', 'adjust_cause_exact', 'adjust_cause_frame', 'pure'],
          universe='pairs (a,b) of JSON values: all of depth<=1 over keys {a,b} and leaves {None,0,1,"","x",[],[0],{}} '
@@ -597,7 +597,7 @@ def _e1_bodies(b, cfg, other):
                         'kopf._cogs.configs.diffbase.StatusDiffBaseStorage.build', 'kopf._cogs.configs.diffbase.MultiDiffBaseStorage.build',
                         'kopf._cogs.configs.progress.AnnotationsProgressStorage.clear', 'kopf._cogs.configs.progress.StatusProgressStorage.clear',
                         'kopf._cogs.configs.progress.MultiProgressStorage.clear'],
-         props=['C04', 'C03'],
+         props=['C04', 'C03', 'C15'],
          clauses=['own_storage_writes_invisible', 'system_writes_invisible', 'other_operator_writes_invisible',
                   'stored_essence_is_fixpoint', 'everything_else_counts', 'pure'],
          universe='72 configurations {Annotations,Status,Smart,Multi progress} x {Annotations,Status,Multi diff-base} x prefixes '
@@ -749,7 +749,7 @@ def _status_touch_fields(cfg):
                          'kopf._cogs.configs.diffbase.StatusDiffBaseStorage.build', 'kopf._cogs.configs.diffbase.MultiDiffBaseStorage.build',
                          'kopf._cogs.configs.progress.AnnotationsProgressStorage.clear', 'kopf._cogs.configs.progress.StatusProgressStorage.clear',
                          'kopf._cogs.configs.progress.MultiProgressStorage.clear'],
-         props=['C04', 'C03'],
+         props=['C04', 'C03', 'C15'],
          clauses=['own_storage_writes_invisible', 'stored_essence_is_fixpoint', 'watched_status_changes_count',
                   'resource_references_invisible', 'ignored_field_changes_invisible', 'everything_else_counts', 'pure'],
          universe='(a) handlers interested in the status stanza itself: the 72 configurations of E1 x extra_fields {status; status.kopf; '
@@ -959,7 +959,7 @@ class _AbstractAnnotations:
 @harness('E2', targets=['kopf._cogs.configs.conventions.StorageStanzaCleaner.remove_empty_stanzas',
                         'kopf._cogs.configs.conventions.StorageKeyMarkingConvention._store_marker',
                         'kopf._cogs.configs.conventions.StorageKeyMarkingConvention._detect_marked_prefixes'],
-         props=['C04'],
+         props=['C04', 'C03', 'C05', 'C08', 'C10', 'C15', 'C16'],
          clauses=['stanzas_exact', 'marker_iff', 'marker_write', 'detect_iff', 'detect_result', 'detect_starts_empty'],
          canaries=['canary.stanzas_untouched', 'canary.marker_always', 'canary.detect_everything'],
          assumes=['essences are JSON objects whose `metadata`, if present, is an object (built by DiffBaseStorage.build from a Kubernetes body)',
@@ -1097,7 +1097,7 @@ def ref_marked_prefixes(keys):
 
 @bounded('E2b', targets=['kopf._cogs.configs.conventions.StorageKeyMarkingConvention._detect_marked_prefixes',
                          'kopf._cogs.configs.conventions.StorageStanzaCleaner.remove_annotations'],
-         props=['C04'], clauses=['detect_marked_prefixes', 'remove_annotations', 'remove_annotations_frame'],
+         props=['C04', 'C03', 'C16'], clauses=['detect_marked_prefixes', 'remove_annotations', 'remove_annotations_frame'],
          universe='_detect_marked_prefixes: every subset of 12 annotation keys (no slash, several slashes, empty prefix/name, marker, known '
                   'prefix, subdomain, look-alike domain) as dict / list / frozenset (3 x 4096); remove_annotations: essences {no metadata, '
                   'metadata without annotations, every subset of 4 annotations} x every subset of 5 keys to remove (one not present) '
@@ -1161,7 +1161,7 @@ class _AnnotationsAtLoopHead:
         return default
 
 
-@harness('E2p', targets='kopf._cogs.configs.diffbase.DiffBaseStorage.build', props=['C04', 'C05'],
+@harness('E2p', targets='kopf._cogs.configs.diffbase.DiffBaseStorage.build', props=['C04', 'C05', 'C14'],
          clauses=['dropped_iff_under_marked_prefix', 'drops_only_the_scanned_key', 'prefixes_come_from_detector'],
          canaries=['canary.drops_everything', 'canary.drops_nothing'],
          trusted=['copy.deepcopy / dicts.cherrypick / dicts.remove: structure-preserving helpers, exercised for real in E1'])
